@@ -202,8 +202,12 @@ async def maildir_readonly(part, r):
         p0 = wire.Client(srv)
         await p0.start()
         await p0.send(b'p LOGIN u p\r\n')
-        await p0.send(b'p SELECT INBOX\r\n')
-        await p0.send(b'p CLOSE\r\n') if r.random() < 0.5 else await p0.send(b'p EXAMINE INBOX\r\n')
+        if r.random() < 0.5:
+            await p0.send(b'p SELECT INBOX\r\n')
+            await p0.send(b'p CLOSE\r\n')
+        else:
+            # only ever looked at read-only: the deliveries stay unclaimed (in new/), and nothing a read-only selection does may claim them
+            await p0.send(b'p EXAMINE INBOX\r\n')
         await p0.send(b'p LOGOUT\r\n')
         await p0.finish()
 
@@ -211,7 +215,7 @@ async def maildir_readonly(part, r):
             p = wire.Client(srv)
             await p.start()
             await p.send(b'p LOGIN u p\r\n')
-            st = await p.send(b'p STATUS INBOX (MESSAGES UIDNEXT UIDVALIDITY)\r\n')
+            st = await p.send(b'p STATUS INBOX (MESSAGES UIDNEXT UIDVALIDITY RECENT)\r\n')
             await p.send(b'p EXAMINE INBOX\r\n')
             raw = await p.send(b'p UID FETCH 1:* (UID FLAGS RFC822.SIZE)\r\n')
             await p.send(b'p LOGOUT\r\n')
@@ -221,8 +225,9 @@ async def maildir_readonly(part, r):
                 f = imapresp.fetch_items(resp)
                 if f:
                     items.append((int(f[1][b'UID'].val), tuple(sorted(imapresp.atom(x).lower() for x in f[1][b'FLAGS'] if imapresp.atom(x).lower() != b'\\recent')), int(f[1][b'RFC822.SIZE'].val)))
-            mt = re.search(rb'MESSAGES (\d+) UIDNEXT (\d+) UIDVALIDITY (\d+)', st)
-            return (sorted(items), mt.groups() if mt else st[-60:])
+            mt = re.search(rb'MESSAGES (\d+) UIDNEXT (\d+) UIDVALIDITY (\d+) RECENT (\d+)', st)
+            where = sorted(sub for sub in ('new', 'cur') for _f in os.listdir(os.path.join(inbox, sub)))
+            return (sorted(items), mt.groups() if mt else st[-60:], where)
         before = await look()
         a = wire.Client(srv)
         await a.start()
@@ -231,7 +236,7 @@ async def maildir_readonly(part, r):
         if b'a OK' not in raw:
             part.stat('maildir-ro:examine-failed')
             return
-        cmds = [b'CHECK', b'NOOP', b'FETCH 1:* (FLAGS)', b'UID FETCH 1:* (BODY[])', b'FETCH 1 (BODY[HEADER])', b'SEARCH ALL', b'UID SEARCH UNSEEN', b'STORE 1 +FLAGS (\\Seen)', b'STORE 1:* FLAGS.SILENT ()',
+        cmds = [b'CHECK', b'NOOP', b'FETCH 1:* (FLAGS)', b'UID FETCH 1:* (BODY[])', b'FETCH 1 (BODY[HEADER])', b'SEARCH ALL', b'UID SEARCH UNSEEN', b'SEARCH BODY body', b'UID SEARCH TEXT delivered', b'FETCH 1:* (BODY.PEEK[TEXT]<0.5>)', b'FETCH 1:* (RFC822.SIZE BODYSTRUCTURE)', b'STORE 1 +FLAGS (\\Seen)', b'STORE 1:* FLAGS.SILENT ()',
                 b'EXPUNGE', b'UID EXPUNGE 1:*', b'COPY 1 INBOX2', b'MOVE 1 INBOX2', b'UID MOVE 1:* nosuch', b'STATUS INBOX (MESSAGES UIDNEXT)', b'CHECK', b'IDLE']
         r.shuffle(cmds)
         log = case['log'] = []
